@@ -1,8 +1,9 @@
 #!/bin/sh
 # runs the repository's pinned suite (hooks: none, so the guard is trivially off) and
+# usage: baseline.sh [tree]   (default /repo)
 # compares with the 301 stable tests of /root/.vp/BASELINE.json
 OUT=$(mktemp /tmp/junit.XXXXXX.xml)
-cd /repo && /venv/bin/python -m pytest -ra -q -p no:cacheprovider --timeout=900 --continue-on-collection-errors --junitxml="$OUT" >/tmp/baseline.log 2>&1
+cd "${1:-/repo}" && /venv/bin/python -m pytest -ra -q -p no:cacheprovider --timeout=900 --continue-on-collection-errors --junitxml="$OUT" >/tmp/baseline.log 2>&1
 python3 - "$OUT" <<'PY'
 import json, sys, xml.etree.ElementTree as ET
 base = set(json.load(open('/root/.vp/BASELINE.json'))['stable_pass'])
